@@ -76,7 +76,11 @@ struct Case
         a.numvec("schedule", schedule);
         a.optionalNum("idleGap", idleGap);
         a.optionalNum("warmup", warmup);
+        a.optionalNum("copyAt", copyAt);
     }
+    uint16_t copyAt{0};  // > 0: after frame number copyAt-1 the decoder is copied; from then on the copy receives every frame too (after the
+                         // original) and must deliver the same packets - a copy of a decoder is a decoder with the same history, and a
+                         // separate one
     uint32_t warmup{0};  // > 0: a long-lived decoder - before the script it has already reassembled and delivered that many two-segment
                          // messages (60000 + 5 bytes) of a foreign endpoint, i.e. warmup x 60 KB of segmented traffic in total
 };
@@ -243,6 +247,7 @@ static Verdict runCase(const Case& c, Info& info)
     }
 
     lib::Decoder dec;
+    std::unique_ptr<lib::Decoder> copy;
     model::Reassembler ref;
     size_t deliveredSegmented = 0;
     bool contextSwitch = false;
@@ -284,6 +289,22 @@ static Verdict runCase(const Case& c, Info& info)
             contextSwitch = true;
         auto got = decodeOwned(dec, bf.bytes);
         auto exp = ref.feed(bf.bytes);
+        if (c.copyAt && i + 1 == c.copyAt && !copy)
+        {
+            copy = std::make_unique<lib::Decoder>(dec);
+            info.tag("decoder_copied_mid_stream_and_both_used");
+        }
+        else if (copy)
+        {
+            auto gotCopy = decodeOwned(*copy, bf.bytes);
+            VF_CHECK(gotCopy.size() == exp.size(), "frame " << i << ": the copy of the decoder (taken after frame " << (c.copyAt - 1) << ") returned " << gotCopy.size()
+                                                            << " packets, expected " << exp.size());
+            for (size_t k = 0; k < exp.size(); ++k)
+            {
+                VF_CHECK(gotCopy[k] != nullptr, "frame " << i << ": null packet from the decoder copy");
+                VF_TRY(compareDelivered(*gotCopy[k], exp[k], "decoder copy, frame " + std::to_string(i)));
+            }
+        }
         // self-check of the oracle: the byte-level model must agree with the expectation derived from the script
         if (exp.size() != bf.expect.size())
             return Verdict::fail("HARNESS-ERROR: reference reassembler disagrees with the script-derived expectation");
@@ -376,6 +397,9 @@ static rc::Gen<Case> genCase(int tier)
         // one case in twenty: a long-lived decoder that has already delivered 1 / 2 / 4 MiB of segmented traffic
         if (*range<int>(0, 19) == 0)
             c.warmup = *rc::gen::weightedOneOf<uint32_t>({{3, range<uint32_t>(17, 22)}, {1, range<uint32_t>(35, 40)}, {1, range<uint32_t>(70, 75)}});
+        // one case in six: the decoder is copied somewhere in the stream and both objects go on receiving it
+        if (*range<int>(0, 5) == 0)
+            c.copyAt = *range<uint16_t>(1, 30);
         int nEp = *range<int>(1, 4);
         // alphabet chosen so that same-device/other-stream and same-stream/other-device pairs occur
         static const std::pair<uint16_t, uint8_t> alphabet[] = {{1, 0},      {1, 5},      {2, 0},      {2, 5},      {0xFFFF, 0xFF}, {0, 0},
@@ -485,6 +509,8 @@ static void normalizeCase(Case& c)
         c.schedule.resize(64);
     if (c.warmup > 80)
         c.warmup = c.warmup % 81;
+    if (c.copyAt > 4000)
+        c.copyAt = static_cast<uint16_t>(c.copyAt % 4001);
     std::set<std::pair<uint16_t, uint8_t>> seen;
     std::vector<EndpointScript> keep;
     size_t frames = 0, bytes = 0;
